@@ -7,8 +7,9 @@
 EXTENDS Lifecycle, Json, IOUtils
 
 Plan == JsonDeserialize(IOEnv.LC_PLAN)
-K == WithSwitches(WithCrash(MkK(Plan.D, Plan.S, Plan.W, Plan.maxd, SeqToSet(Plan.cd), SeqToSet(Plan.kinds), Plan.pairs,
-         SeqToSet(Plan.bury), Plan.rev, Plan.mir, Plan.mode, Plan.empty), Plan.crash), Plan.markFirst, Plan.dropOrphans)
+K == WithDeep(WithSwitches(WithCrash(MkK(Plan.D, Plan.S, Plan.W, Plan.maxd, SeqToSet(Plan.cd), SeqToSet(Plan.kinds), Plan.pairs,
+         SeqToSet(Plan.bury), Plan.rev, Plan.mir, Plan.mode, Plan.empty), Plan.crash), Plan.markFirst, Plan.dropOrphans),
+         Plan.DX, SeqToSet(Plan.around))
 
 TxJson(id) == LET t == K.tx[id] IN
   [id |-> t.id, k |-> t.k, d |-> t.d, needs |-> SetToSeq(t.needs), conflicts |-> SetToSeq(t.conflicts),
